@@ -13,7 +13,6 @@ From V Require Props.C02 Props.C03 Props.C04 Props.C06 Props.C07 Props.C17.
 From V Require Import Proofs.C15 Proofs.C15Owners.
 Import ListNotations.
 Open Scope Z_scope.
-Set Default Timeout 30.
 Ltac Zify.zify_post_hook ::= Z.to_euclidean_division_equations.
 
 (** * zone-aware date-times (C04): date-field setters, day and month stepping for EVERY well-formed
